@@ -77,6 +77,10 @@ class Unknown(Exception):
     pass
 
 
+class Infeasible(Exception):
+    """the path takes an arm that the value tested there (a known Some / Ok / None) rules out"""
+
+
 class Scanner:
     """Symbolic execution of straight paths of one body."""
 
@@ -146,6 +150,8 @@ class Scanner:
                     v = v[1][int(f)] if f.isdigit() and int(f) < len(v[1]) else None
                 elif v[0] == "range":
                     v = {"start": v[1], "end": v[2]}.get(f)
+                elif v[0] == "rec":
+                    v = v[1].get(f)
                 else:
                     return None
                 continue
@@ -199,7 +205,12 @@ class Scanner:
                 elif rv.get("agg") == "tuple":
                     val = ("tuple", tuple(self.operand(env, o) for o in rv["ops"]))
                 elif rv.get("variant") in ("Some", "Ok") and rv["ops"]:
-                    val = ("opt", self.operand(env, rv["ops"][0]))
+                    val = ("opt", self.operand(env, rv["ops"][0]), True)      # built here: known to be the success variant
+                elif rv.get("variant") == "None" and path.endswith("option::Option") and not rv["ops"]:
+                    val = ("nil",)
+                elif rv.get("agg") == "adt" and path.startswith("blockwatch::") and rv.get("fields") and not path.endswith("tag_parser::BlockTag"):
+                    # a record of the crate's own (`TagMatch { kind, range }`): its fields, by name
+                    val = ("rec", dict(zip(rv["fields"], [self.operand(env, o) for o in rv["ops"]])))
         except Unknown:
             val = None
         if self.is_self(env, lhs["l"]) and any(isinstance(e, dict) and "f" in e for e in lhs["p"]):
@@ -223,8 +234,9 @@ class Scanner:
                 s = self.as_str(self.operand(env, args[0]))
                 val = ("int", lsub(s[2], s[1]))
             elif re.search(r"<impl str>::(find|rfind)$", nm) and args:
-                self.as_str(self.operand(env, args[0]))
+                s0 = self.as_str(self.operand(env, args[0]))
                 val = ("opt", ("int", lin(**{self.sym("pos", bi): 1})))
+                env[("found",)] = ladd(s0[1], lin(**{self.sym("pos", bi): 1}))
             elif re.search(r"Index<.*> for str>::index$|ops::Index<.*>>?::index$", nm) and len(args) == 2:
                 s = self.as_str(self.operand(env, args[0]))
                 r = self.operand(env, args[1])
@@ -236,7 +248,15 @@ class Scanner:
                 s = self.as_str(self.operand(env, args[1]))
                 m = self.sym("m", bi)
                 rem = ("str", ladd(s[1], lin(**{m: 1})), s[2])
-                val = ("opt", ("tuple", (rem, None)))
+                pty = (t.get("arg_tys") or [""])[0]
+                taken = ("str", s[1], rem[1])
+                if re.search(r"::With(Taken|Recognized)<", pty):
+                    # `parser.with_taken()`: the output paired with the slice that was consumed
+                    val = ("opt", ("tuple", (rem, ("tuple", (None, taken)))))
+                elif re.search(r"::(Take|Recognize)<", pty):
+                    val = ("opt", ("tuple", (rem, taken)))
+                else:
+                    val = ("opt", ("tuple", (rem, None)))
                 env[("peek", bi)] = (s, rem)
             elif re.search(r"<impl str>::(match_indices|char_indices)$", nm) and args:
                 # an iterator of (position relative to s, ..) pairs
@@ -248,6 +268,7 @@ class Scanner:
                 v0 = self.operand(env, args[0])
                 if v0 is not None and v0[0] == "positions":
                     val = ("opt", ("tuple", (("int", lin(**{self.sym("pos", bi): 1})), None)))
+                    env[("found",)] = ladd(v0[1][1], lin(**{self.sym("pos", bi): 1}))
             elif re.search(r"Deref>?::deref$|AsRef<str>>?::as_ref$|String::as_str$|Borrow<str>>?::borrow$", nm) and args:
                 val = self.operand(env, args[0])
             elif re.search(r"result::Result::<T, E>::(ok|map_err)$|option::Option::<T>::(ok_or|ok_or_else)$|anyhow::Context.*::(context|with_context)$|ops::Try>?::branch$", nm) and args:
@@ -264,14 +285,78 @@ class Scanner:
     def run(self, path, env):
         """executes the blocks of `path` in order (terminator calls of every block but the last included)"""
         env = dict(env)
+        dmap = {}
         for i, bb in enumerate(path):
             blk = self.b.blocks[bb]
             for s in blk["stmts"]:
+                if s["k"] == "assign" and not s["lhs"]["p"]:
+                    dmap.pop(s["lhs"]["l"], None)
+                    rv = s["rv"]
+                    if rv["k"] == "discr" and not [e for e in rv["place"]["p"] if e != "deref"]:
+                        v = env.get(rv["place"]["l"])
+                        ty = re.sub(r"^&(mut )?", "", self.b.local_ty(rv["place"]["l"]))
+                        if v is not None and v[0] == "opt" and len(v) > 2 and ty.startswith("std::option::Option<"):
+                            dmap[s["lhs"]["l"]] = 1
+                        elif v is not None and v[0] == "opt" and len(v) > 2 and ty.startswith("std::result::Result<"):
+                            dmap[s["lhs"]["l"]] = 0
+                        elif v is not None and v[0] == "nil" and ty.startswith("std::option::Option<"):
+                            dmap[s["lhs"]["l"]] = 0
                 self.step_stmt(env, s)
             t = blk["term"]
             if t and t["k"] == "call" and i + 1 < len(path):
                 self.step_call(env, bb, t)
+            elif t and t["k"] == "switch" and i + 1 < len(path):
+                pl = t["op"].get("c") or t["op"].get("m")
+                if pl and not pl["p"] and pl["l"] in dmap:
+                    want = dict(zip(t["vals"], t["targets"])).get(dmap[pl["l"]], t["otherwise"])
+                    if path[i + 1] != want:
+                        raise Infeasible()
         return env
+
+
+def _successful_peek(b, p, peeks):
+    """The tag attempt (block of a `parse_peek`) whose success the path `p` goes through last: the result -
+    as it is, or passed through `.ok()`, `?`, `map_err`, a move - is tested and the path takes the success arm."""
+    tagged = {}     # local -> peek block
+    disc = {}       # local holding a discriminant -> (peek block, type of the tested value)
+    ok_peek = None
+
+    def whole(op):
+        pl = op.get("c") or op.get("m") if isinstance(op, dict) else None
+        return pl["l"] if pl and not [e for e in pl["p"] if e != "deref"] else None
+    for i, bb in enumerate(p):
+        blk = b.blocks[bb]
+        for s in blk["stmts"]:
+            if s["k"] != "assign" or s["lhs"]["p"]:
+                continue
+            rv = s["rv"]
+            l = s["lhs"]["l"]
+            tagged.pop(l, None)
+            disc.pop(l, None)
+            if rv["k"] == "use" and whole(rv["op"]) in tagged:
+                tagged[l] = tagged[whole(rv["op"])]
+            elif rv["k"] == "discr" and not [e for e in rv["place"]["p"] if e != "deref"] and rv["place"]["l"] in tagged:
+                disc[l] = (tagged[rv["place"]["l"]], b.local_ty(rv["place"]["l"]))
+        t = blk["term"]
+        if not t or i + 1 >= len(p):
+            continue
+        if t["k"] == "call":
+            if bb in peeks and not t["dest"]["p"]:
+                tagged[t["dest"]["l"]] = bb
+            elif t["args"] and whole(t["args"][0]) in tagged and not t["dest"]["p"] and re.search(
+                    r"result::Result::<T, E>::(ok|map_err)$|option::Option::<T>::(ok_or|ok_or_else)$|anyhow::Context.*::(context|with_context)$|ops::Try>?::branch$", callee_name(t)):
+                tagged[t["dest"]["l"]] = tagged[whole(t["args"][0])]
+        elif t["k"] == "switch":
+            l = whole(t["op"])
+            if l in disc:
+                pk, ty = disc[l]
+                ty = re.sub(r"^&(mut )?", "", ty)
+                good = 1 if ty.startswith("std::option::Option<") else 0
+                arms = dict(zip(t["vals"], t["targets"]))
+                taken = [v for v, tg in arms.items() if tg == p[i + 1]]
+                if taken == [good] or (not taken and good not in arms and len(arms) == 1):
+                    ok_peek = pk
+    return ok_peek
 
 
 def scanner_report(ctx, body):
@@ -293,7 +378,12 @@ def scanner_report(ctx, body):
     pre = [p for p in pre if p[-1] == h]
     if not pre or not complete:
         return [(None, "the code in front of the scan loop could not be enumerated")]
-    entry_envs = [S.run(p, {}) for p in pre]
+    entry_envs = []
+    for p in pre:
+        try:
+            entry_envs.append(S.run(p, {}))
+        except Infeasible:
+            pass
     # carried locals: assigned inside the loop and live at its head (defined before it as well)
     defs = b.defs()
     carried = []
@@ -353,7 +443,10 @@ def scanner_report(ctx, body):
                 return [(None, "the paths of one scan iteration could not be enumerated")]
             paths.extend([[h] + p for p in ps])
         for p in paths:
-            env = S.run(p, head)
+            try:
+                env = S.run(p, head)
+            except Infeasible:
+                continue
             if p[-1] == h:
                 # invariant preservation
                 for v in ints:
@@ -377,18 +470,19 @@ def scanner_report(ctx, body):
                         out.append((None, "after one iteration `%s` is no longer a suffix of the text" % name(s)))
                 continue
             # a returning path: which tag attempt succeeded on it, and what is reported
-            ok_peek = None
-            for i, bb in enumerate(p[:-1]):
-                if bb in peeks:
-                    sw = cfg.succ[bb][0] if cfg.succ[bb] else None
-                    tt = b.blocks[sw]["term"] if sw is not None else None
-                    if tt and tt["k"] == "switch" and i + 2 < len(p):
-                        arms = dict(zip(tt["vals"], tt["targets"]))
-                        if arms.get(0) == p[i + 2]:
-                            ok_peek = bb
+            ok_peek = _successful_peek(b, p, peeks)
             if ok_peek is None:
                 continue
             pts, rem = env[("peek", ok_peek)]
+            # the tag parser is applied at the `<` that the search found
+            fenv = S.run(p[:p.index(ok_peek) + 1], head)
+            found = fenv.get(("found",))
+            if found is not None:
+                if norm(pts[1]) == norm(found):
+                    out.append((True, "the tag parser is applied at the `<` that was found"))
+                else:
+                    out.append((False, "the tag parser is applied at offset %s of the text, but the `<` that was found is at offset %s (difference %s): candidate tags are tried at the wrong place" % (
+                        lshow(norm(pts[1])), lshow(norm(found)), lshow(lsub(norm(pts[1]), norm(found))))))
             for bb in p:
                 for s in b.blocks[bb]["stmts"]:
                     if s["k"] != "assign":
